@@ -37,7 +37,12 @@ func DrawTrivia(t *rapid.T, st TriviaStyle) string {
 		w := Pick(t, words, "cw")
 		if rapid.Bool().Draw(t, "line") {
 			w = strings.ReplaceAll(w, "\n", " ")
-			sb.WriteString("//" + rapid.SampledFrom([]string{"", " ", "/", "  "}).Draw(t, "lp") + w + "\n")
+			eol := "\n"
+			if st.Exotic {
+				// Windows line ends, and a bare carriage return inside the comment
+				eol = Pick(t, []string{"\n", "\n", "\r\n", "\r\n", " \r\n", "\rx\n"}, "eol")
+			}
+			sb.WriteString("//" + rapid.SampledFrom([]string{"", " ", "/", "  "}).Draw(t, "lp") + w + eol)
 		} else {
 			w = strings.ReplaceAll(w, "*/", "* /")
 			if strings.HasSuffix(w, "*") || strings.HasSuffix(w, "/") && strings.HasSuffix(strings.TrimSuffix(w, "/"), "*") {
@@ -89,7 +94,12 @@ func Respell(t *rapid.T, texts []string, st TriviaStyle) string {
 	case 1:
 		sb.WriteString("\n")
 	}
-	return sb.String()
+	out := sb.String()
+	if st.Exotic && Pct(t, 30, "crlf-file") {
+		// the whole file with Windows line ends (string literals hold no raw line ends, so the meaning is unchanged)
+		out = strings.ReplaceAll(strings.ReplaceAll(out, "\r\n", "\n"), "\n", "\r\n")
+	}
+	return out
 }
 
 // TokTexts returns the texts of a token slice.
